@@ -67,7 +67,7 @@ def t_upd_conds(oracle, tier, kinds=None, timeout=600, dt_max=None):
     return conds
 
 T_BOUNDS = [
-    "T-instr: 1 modelled vehicle; 13 previous activities x 16 instructions; cells = both targets + one unrelated cell; plugs {LEVEL_2, DCFC, not installed, gas pump}; "
+    "T-instr: 1 modelled vehicle; 13 previous activities x 18 instructions (incl. a pooling dispatch over two requests, once in a world whose requests forbid pooling and once where they allow it); cells = both targets + one unrelated cell; plugs {LEVEL_2, DCFC, not installed, gas pump}; "
     "membership scenarios {all public, vehicle f1 / targets f2, vehicle f1 / targets f1+f2}; request record {none, this vehicle, another vehicle}; BEV and ICE",
     "T-upd: 1 modelled vehicle; energy in [0, capacity] (float, real-arithmetic model); step length 1..300 s (1..150 s for charging activities) in the quick tier, 1..600 s (1..240 s) in the thorough tier; "
     "single-link haversine routes of 0.4-2 km at 40 km/h; price in [0, 10]; arena BEV uses hive's TabularPowercurve with a 4-point table",
